@@ -27,6 +27,9 @@ def collect(res, wr):
     for f in wr.failures:
         res.violations.append(core.Violation(f["msg"], replay_text=f["replay_text"]))
     for c in wr.crashes:
+        if c["rc"] == "timeout":      # a plain timeout is never a violation (rule 5): e.g. a corrupted structure can make un-hooked code spin forever
+            res.inconclusive = "worker '%s' exceeded its time limit" % c.get("tag", "")
+            continue
         res.violations.append(core.Violation("harness process died (rc=%s): %s" % (c["rc"], c["log_tail"][-1200:]),
                                              replay_text="# crash of %s\n%s" % (" ".join(c["cmd"]), c["log_tail"][-1500:])))
 
@@ -44,6 +47,7 @@ def _known(res, b):
 def run(tier, seed, res):
     b = _build()
     quick = tier == "quick"
+    tmo = 900 if quick else 4 * 3600
     res.rule = RULE
     res.assumptions = ["only the owner thread allocates from its thread mempool; any thread may free",
                        "copies are released once, by whoever holds them; the data_t of a device-0 copy is released by the user",
@@ -55,14 +59,18 @@ def run(tier, seed, res):
     per = 700 if quick else 150000
     jobs = [dict(cmd=[b, "rc", "1"], env={"ASAN_OPTIONS": ASAN, "RC_PARAMS": "seed=%d max_success=%d max_size=100" % (seed * 131 + i, per)}, tag="seq") for i in range(n)]
     jobs += [dict(cmd=[b, "rc", "2"], env={"ASAN_OPTIONS": ASAN, "RC_PARAMS": "seed=%d max_success=%d max_size=100" % (seed * 139 + i, per)}, tag="conc") for i in range(n)]
-    wr = core.run_workers(PROP, jobs)
+    wr = core.run_workers(PROP, jobs, timeout=tmo)
     res.absorb(wr, "rc")
     collect(res, wr)
+    if res.violations:
+        return
     mult = 1 if quick else 150
-    jobs = [dict(cmd=[b, "stress", str(t), str(it * mult), str(seed * 17 + t)], env={"ASAN_OPTIONS": ASAN}, tag="stress") for t, it in ((2, 4000), (4, 3000), (8, 2000), (16, 1500))]
-    wr = core.run_workers(PROP, jobs, max_parallel=1)
+    jobs = [dict(cmd=[b, "stress", str(t), str(it * mult), str(seed * 17 + t)], env={"ASAN_OPTIONS": ASAN}, tag="stress") for t, it in ((2, 2500), (4, 2000), (8, 1200), (16, 800))]
+    wr = core.run_workers(PROP, jobs, timeout=tmo, max_parallel=1)
     res.absorb(wr, "stress")
     collect(res, wr)
+    if res.violations:
+        return
 
 
 def replay(path):
